@@ -392,21 +392,55 @@ BuilderNameViol(db) ==
   \cup {<<"nested scope", t>> : t \in {x \in TIx(db) : \E q \in SeqRange(db.t[x].nested) \cap TIx(db) :
         db.t[q].sn # db.t[x].sn \o "::" \o db.t[q].n}}
 
+(* Signatures BY INDEX (databases written by interrogate): the `this`      *)
+(* parameter of a wrapper is a (pointer to a possibly const) object of the  *)
+(* class of the function the wrapper belongs to; for derivation k of class  *)
+(* D with base B: every wrapper of the upcast function takes D and returns  *)
+(* B, every wrapper of the downcast function takes B and returns D; a       *)
+(* derivation whose downcast is impossible (virtual base) has none.         *)
+RECURSIVE StripPC(_, _, _)
+StripPC(db, i, k) == IF k = 0 \/ i \notin TIx(db) THEN i
+                     ELSE IF (db.t[i].ptr \/ db.t[i].cst) /\ db.t[i].wrapped # 0
+                            THEN StripPC(db, db.t[i].wrapped, k - 1) ELSE i
+Target(db, i) == StripPC(db, i, 6)
+WrappersOf(db, f) == (SeqRange(db.f[f].cw) \cup SeqRange(db.f[f].pw)) \cap WIx(db)
+CastBad(db, f, from, to) ==
+  \E w \in WrappersOf(db, f) : Len(db.w[w].ps) = 0 \/ Target(db, db.w[w].ps[1]) # from \/ Target(db, db.w[w].ret) # to
+SigViol(db) ==
+  {<<"this parameter", w>> : w \in {x \in WIx(db) : db.w[x].this /\ db.w[x].fn \in FIx(db) /\
+        (Len(db.w[x].ps) = 0 \/ Target(db, db.w[x].ps[1]) # db.f[db.w[x].fn].cls)}}
+  \cup {<<"upcast signature", t>> : t \in {x \in TIx(db) : \E k \in DOMAIN db.t[x].derivs :
+        LET d == db.t[x].derivs[k] IN d.up \in FIx(db) /\ CastBad(db, d.up, x, d.base)}}
+  \cup {<<"downcast signature", t>> : t \in {x \in TIx(db) : \E k \in DOMAIN db.t[x].derivs :
+        LET d == db.t[x].derivs[k] IN d.down \in FIx(db) /\ CastBad(db, d.down, d.base, x)}}
+  \cup {<<"downcast of a virtual base", t>> : t \in {x \in TIx(db) : \E k \in DOMAIN db.t[x].derivs :
+        db.t[x].derivs[k].nodown /\ db.t[x].derivs[k].down # 0}}
+
 (* Ground truth of the input header: truth is a sequence of                 *)
 (*   [k |-> "e", sn |-> element, f |-> field, fn |-> scoped function name or ""]  *)
 (*   [k |-> "s", sn |-> make_seq, f |-> "lenf"/"elemf", fn |-> ...]          *)
-(* derived from the MAKE_* declarations of the header: the named record      *)
-(* must exist and the field must link the function of exactly that name.     *)
+(* derived from the MAKE_* declarations of the header: where the named record *)
+(* exists (a declaration the builder rejects, e.g. an unsuitable getter,      *)
+(* leaves none; the check counts the matched entries) the field must link the *)
+(* function of exactly that name.                                             *)
 FieldOf(r, f) == CASE f = "getter" -> r.getter [] f = "setter" -> r.setter [] f = "has" -> r.has
                    [] f = "clear" -> r.clear [] f = "del" -> r.del [] f = "ins" -> r.ins
                    [] f = "getkey" -> r.getkey [] f = "len" -> r.len [] f = "lenf" -> r.lenf [] f = "elemf" -> r.elemf
 FnName(db, i) == IF i = 0 THEN "" ELSE IF i \in FIx(db) THEN db.f[i].sn ELSE "?"
+(*   [k |-> "b", sn |-> class, idx |-> i, base |-> name of its i-th base, virt |-> 0/1]  *)
+(* the class must list that base at that position; a virtual base has no downcast. *)
 TruthViol(db, truth) ==
   {k \in DOMAIN truth :
-     LET x == truth[k]
-         src == IF x.k = "e" THEN db.e ELSE db.s
-         hits == {i \in DOMAIN src : src[i].sn = x.sn}
-     IN hits = {} \/ \E i \in hits : FnName(db, FieldOf(src[i], x.f)) # x.fn}
+     LET x == truth[k] IN
+     IF x.k = "b"
+       THEN LET hits == {i \in TIx(db) : db.t[i].sn = x.sn /\ db.t[i].fd} IN
+            \E i \in hits :
+               \/ x.idx \notin DOMAIN db.t[i].derivs
+               \/ LET d == db.t[i].derivs[x.idx] IN
+                  d.base \notin TIx(db) \/ db.t[d.base].sn # x.base \/ (x.virt = 1 /\ d.down # 0)
+       ELSE LET src == IF x.k = "e" THEN db.e ELSE db.s
+                hits == {i \in DOMAIN src : src[i].sn = x.sn}
+            IN \E i \in hits : FnName(db, FieldOf(src[i], x.f)) # x.fn}
 
 ---------------------------------------------------------------------------
 (* A database given as JSON (dumps of real databases, files carried by a   *)
